@@ -147,6 +147,7 @@ func vsetfield(obj any, name string, v any)
 func vgetfield(obj any, name string) any
 func vcapture()
 func vcaptured() string
+func vtempdir() string
 `
 }
 
@@ -308,6 +309,17 @@ func vcapture() {
 	vos.Stdout = f
 }
 
+func vtempdir() string {
+	d, err := vos.MkdirTemp("", "verifdir")
+	if err != nil {
+		panic(err)
+	}
+	vTempDirs = append(vTempDirs, d)
+	return d
+}
+
+var vTempDirs []string
+
 func vcaptured() string {
 	if vCapFile == nil {
 		return ""
@@ -362,6 +374,9 @@ func replayTest(pkg string, fns []string) string {
 	}
 	for _, f := range vFailures {
 		vfmt2.Printf("VERIF-FAIL: %s\n", f)
+	}
+	for _, d := range vTempDirs {
+		vos2.RemoveAll(d)
 	}
 	vfmt2.Printf("VERIF-STATUS: %s\n", status)
 }
